@@ -343,6 +343,7 @@ async fn scenario(mon: &Monitor, rng: &mut Rng) {
         // connections drop: some of X's peers are disconnected at the transport (they stay in X's
         // routing table and answer as soon as they are dialled again)
         let mut dropped_conns = 0usize;
+        let mut dropped_ids: Vec<usize> = Vec::new();
         if rng.chance(0.35) {
             for (pid, _k, conn, _a) in xn.mgr.verif_dht_peers().await {
                 if conn && dropped_conns < 3 && rng.chance(0.4) {
@@ -351,6 +352,9 @@ async fn scenario(mon: &Monitor, rng: &mut Rng) {
                     let _ = xn.transport.disconnect_peer(&pid).await;
                     if let Some(pn) = spell.get(&pid).and_then(|i| eps[*i].node.as_ref()) {
                         let _ = pn.transport.disconnect_peer(&xe.tid_hex).await;
+                    }
+                    if let Some(i) = spell.get(&pid) {
+                        dropped_ids.push(*i);
                     }
                     dropped_conns += 1;
                 }
@@ -383,6 +387,8 @@ async fn scenario(mon: &Monitor, rng: &mut Rng) {
             }
         }
         learned.remove(&x);
+        // does the caller know every other node right now (routing table or live connection)?
+        let knows_everybody = (0..n_real).filter(|i| *i != x).all(|i| learned.contains(&i));
 
         let t0 = hub.trace_len();
         let c0 = hub.connects().len();
@@ -548,8 +554,33 @@ async fn scenario(mon: &Monitor, rng: &mut Rng) {
             let forged = eps[n_real..].iter().any(|e| e.lie == Some(Lie::ForgedDistance));
             mon.violation(if forged { "order/not-ascending/forged-distance-present" } else { "order/not-ascending" }, ctx(json!({"result": mapped.iter().flatten().map(|i| hex8(&eps[*i].tid)).collect::<Vec<_>>()})));
         }
-        // (7) closure — judged only when the request budget cannot be the excuse
-        if learned.len() + phantoms <= 25 {
+        // rounds = distinct instants at which requests went out; the lookup has 20 of them, and a sparse
+        // topology that reveals one new peer per round (a line of 24) legitimately runs out of rounds
+        // (with zero-latency delivery several rounds share one virtual instant, so rounds are read off the
+        // trace order: a batch's requests are all on the wire before the caller yields, i.e. before any
+        // reply; a reply to the caller, or a later instant, ends the batch)
+        let rounds = {
+            let (mut n, mut in_run, mut last_t) = (0usize, false, Duration::ZERO);
+            for f in &frames {
+                let is_req = f.src == xe.tid_hex && f.dht.as_ref().is_some_and(|d| d.mtype == "Request" && d.op == "FindNode" && d.key == Some(key));
+                let is_reply = f.dst == xe.tid_hex && f.dht.as_ref().is_some_and(|d| d.mtype == "Response" && req_ids.contains(d.message_id.as_str()));
+                if is_req {
+                    if !in_run || f.t != last_t {
+                        n += 1;
+                    }
+                    in_run = true;
+                    last_t = f.t;
+                } else if is_reply {
+                    in_run = false;
+                }
+            }
+            n
+        };
+        if rounds >= 19 {
+            mon.count("skipped.closure-iteration-budget-may-bind", 1);
+        }
+        // (7) closure — judged only when neither the request budget nor the round budget can be the excuse
+        if learned.len() + phantoms <= 25 && rounds < 19 {
             let far: Option<[u8; 32]> = if result.len() >= k && k > 0 { dists.last().copied() } else if k == 0 { Some([0u8; 32]) } else { None };
             let queried: HashSet<usize> = reqs.iter().filter_map(|r| spell.get(&r.dst).copied()).collect();
             let dial_failed: HashSet<usize> = dials
@@ -605,7 +636,14 @@ async fn scenario(mon: &Monitor, rng: &mut Rng) {
             mon.count("skipped.closure-budget-may-bind", 1);
         }
         // (8) full mesh, no faults: exactly the min(K,N) globally closest
-        if topo == Topo::FullMesh && fault_free {
+        // a peer whose connection was dropped and that has no routing-table entry (its bucket was full) is no
+        // longer known to the caller: the world is then not one "where every node knows every other"
+        // (connections dropped before this or an EARLIER lookup of the scenario stay down until somebody dials again)
+        let _ = &dropped_ids;
+        if topo == Topo::FullMesh && fault_free && !knows_everybody {
+            mon.count("skipped.fullmesh-caller-no-longer-knows-everybody", 1);
+        }
+        if topo == Topo::FullMesh && fault_free && knows_everybody && rounds < 19 {
             mon.eval();
             let mut all: Vec<usize> = (0..n_real).collect();
             all.sort_by_key(|i| xor(&eps[*i].pos, &key));
